@@ -7,6 +7,7 @@ toolchain go1.23.5
 require (
 	github.com/dgraph-io/badger/v4 v4.0.0
 	github.com/dgraph-io/ristretto/v2 v2.2.0
+	google.golang.org/protobuf v1.36.7
 )
 
 require (
@@ -21,7 +22,6 @@ require (
 	go.opentelemetry.io/otel/metric v1.37.0 // indirect
 	go.opentelemetry.io/otel/trace v1.37.0 // indirect
 	golang.org/x/sys v0.35.0 // indirect
-	google.golang.org/protobuf v1.36.7 // indirect
 )
 
 replace github.com/dgraph-io/badger/v4 => /repo
